@@ -415,10 +415,146 @@ impl G {
         s
     }
 
+    /// Shapes the algebraic rewrite rules look for (repeated sub-terms, literal neighbourhoods, IN-list algebra,
+    /// negations, boolean CASE): random trees almost never repeat a sub-term, so these are built from templates.
+    pub fn templates(&self) -> S {
+        let d = self.cfg.max_depth.saturating_sub(2).max(1);
+        let b = self.expr(Ty::Bool, d);
+        let and = |l: E, r: E| E::bin(Op::And, l, r);
+        let or = |l: E, r: E| E::bin(Op::Or, l, r);
+        let not = |x: E| E::Not(bx(x));
+        let mut alts: Vec<(u32, S)> = vec![];
+        // boolean algebra with shared sub-terms
+        alts.push((
+            6,
+            (b.clone(), b.clone(), b.clone(), b.clone(), 0u8..14)
+                .prop_map(move |(a, bb, c, dd, k)| match k {
+                    0 => or(a.clone(), and(a, bb)),
+                    1 => or(and(a.clone(), bb), a),
+                    2 => and(a.clone(), or(a, bb)),
+                    3 => and(or(a.clone(), bb), a),
+                    4 => or(and(a.clone(), bb), and(a, c)),
+                    5 => or(and(and(a.clone(), bb), dd), and(c, a)),
+                    6 => and(a.clone(), not(a)),
+                    7 => or(not(a.clone()), a),
+                    8 => and(a.clone(), a),
+                    9 => or(or(a.clone(), bb), a),
+                    10 => and(and(bb, a.clone()), a),
+                    11 => not(not(a)),
+                    12 => not(and(a, or(bb, c))),
+                    _ => E::bin(Op::Eq, a.clone(), a),
+                })
+                .boxed(),
+        ));
+        // comparisons of a boolean with boolean literals
+        alts.push((
+            2,
+            (b.clone(), prop::sample::select(vec![V::B(true), V::B(false), V::Null]), prop::sample::select(vec![Op::Eq, Op::Ne, Op::Distinct, Op::NotDistinct]), any::<bool>())
+                .prop_map(|(a, l, op, flip)| if flip { E::bin(op, E::Lit(Ty::Bool, l), a) } else { E::bin(op, a, E::Lit(Ty::Bool, l)) })
+                .boxed(),
+        ));
+        for t in ALL_TYS {
+            if t == Ty::Bool {
+                continue;
+            }
+            let x: S = prop_oneof![5 => self.col(t), 1 => self.expr(t, 1)].boxed();
+            let l = self.lit_nonnull(t);
+            let lits = prop::collection::vec(prop_oneof![10 => self.lit_nonnull(t), 1 => Just(E::null(t))], 1..5);
+            // x = x, x <> x, x = l1 OR x = l2 OR x = l3, x = l1 AND x <> l2, x >= l AND x <= l, range conjunctions
+            alts.push((
+                2,
+                (x.clone(), l.clone(), l.clone(), l.clone(), 0u8..8)
+                    .prop_map(move |(x, l1, l2, l3, k)| match k {
+                        0 => E::bin(Op::Eq, x.clone(), x),
+                        1 => E::bin(Op::Ne, x.clone(), x),
+                        2 => or(or(E::bin(Op::Eq, x.clone(), l1), E::bin(Op::Eq, x.clone(), l2)), E::bin(Op::Eq, l3, x)),
+                        3 => and(E::bin(Op::Eq, x.clone(), l1), E::bin(Op::Ne, x, l2)),
+                        4 => and(E::bin(Op::Ne, x.clone(), l2), E::bin(Op::Eq, x, l1)),
+                        5 => and(E::bin(Op::Ge, x.clone(), l1.clone()), E::bin(Op::Le, x, l1)),
+                        6 => and(E::bin(Op::Ge, x.clone(), l1.clone()), E::bin(Op::Ge, l1, x)),
+                        _ => or(E::bin(Op::Eq, x.clone(), l1), E::InList { neg: false, e: bx(x), list: vec![l2, l3] }),
+                    })
+                    .boxed(),
+            ));
+            // conjunctions of range predicates on one column (simplify_predicates)
+            let cmp = prop::sample::select(vec![Op::Lt, Op::Le, Op::Gt, Op::Ge, Op::Eq]);
+            let pred = (self.col(t), l.clone(), cmp, any::<bool>()).prop_map(|(c, l, op, flip)| if flip { E::bin(op, l, c) } else { E::bin(op, c, l) });
+            alts.push((2, prop::collection::vec(pred, 2..5).prop_map(|v| v.into_iter().reduce(|a, b| E::bin(Op::And, a, b)).unwrap()).boxed()));
+            // IN-list algebra
+            alts.push((
+                2,
+                (x.clone(), lits.clone(), lits.clone(), any::<bool>(), any::<bool>(), any::<bool>())
+                    .prop_map(move |(x, l1, l2, n1, n2, use_or)| {
+                        let a = E::InList { neg: n1, e: bx(x.clone()), list: l1 };
+                        let b = E::InList { neg: n2, e: bx(x), list: l2 };
+                        if use_or { or(a, b) } else { and(a, b) }
+                    })
+                    .boxed(),
+            ));
+            // negations pushed through comparisons / BETWEEN / IN
+            alts.push((
+                1,
+                (x.clone(), l.clone(), l.clone(), cmp_op(), 0u8..4)
+                    .prop_map(move |(x, l1, l2, op, k)| match k {
+                        0 => not(E::bin(op, x, l1)),
+                        1 => not(E::Between { neg: false, e: bx(x), lo: bx(l1), hi: bx(l2) }),
+                        2 => not(E::InList { neg: true, e: bx(x), list: vec![l1, l2] }),
+                        _ => not(E::bin(Op::Distinct, x, l1)),
+                    })
+                    .boxed(),
+            ));
+            if t.is_int() || t.is_float() {
+                let one = E::Lit(t, if t.is_float() { V::F(1.0) } else { V::I(1) });
+                let zero = G::zero_lit(t);
+                alts.push((
+                    1,
+                    (x.clone(), l.clone(), cmp_op(), 0u8..7)
+                        .prop_map(move |(x, l1, op, k)| {
+                            let lhs = match k {
+                                0 => E::bin(Op::Mul, x, one.clone()),
+                                1 => E::bin(Op::Mul, one.clone(), x),
+                                2 => E::bin(Op::Mul, x, zero.clone()),
+                                3 => E::bin(Op::Mul, zero.clone(), x),
+                                4 => E::bin(Op::Div, x, one.clone()),
+                                5 => E::bin(Op::Mod, x, one.clone()),
+                                _ => E::bin(Op::Add, x, zero.clone()),
+                            };
+                            E::bin(op, lhs, l1)
+                        })
+                        .boxed(),
+                ));
+            }
+            if t.is_signed_int() || t.is_float() {
+                alts.push((1, (x.clone(), x.clone(), any::<bool>()).prop_map(|(a, b, sub)| E::Neg(bx(E::bin(if sub { Op::Sub } else { Op::Add }, a, E::Neg(bx(b)))))).boxed()));
+            }
+            // CASE over literals compared with a literal; boolean CASE
+            alts.push((
+                1,
+                (b.clone(), b.clone(), l.clone(), l.clone(), prop::option::of(l.clone()), any::<bool>())
+                    .prop_map(move |(c1, c2, l1, l2, els, ne)| {
+                        let case = E::Case { base: None, whens: vec![(c1, l1.clone()), (c2, l2)], els: els.map(bx) };
+                        E::bin(if ne { Op::Ne } else { Op::Eq }, case, l1)
+                    })
+                    .boxed(),
+            ));
+        }
+        let bl = prop::sample::select(vec![V::B(true), V::B(false), V::Null]).prop_map(|v| E::Lit(Ty::Bool, v));
+        alts.push((
+            4,
+            (prop::collection::vec((b.clone(), prop_oneof![3 => bl.clone(), 1 => b.clone()]), 1..4), prop::option::of(prop_oneof![3 => bl, 1 => b.clone()]))
+                .prop_map(|(whens, els)| E::Case { base: None, whens, els: els.map(bx) })
+                .boxed(),
+        ));
+        Union::new_weighted(alts).boxed()
+    }
+
     /// a non-leaf root: boolean half of the time
     pub fn root(&self) -> S {
         let d = self.cfg.max_depth;
         let mut alts: Vec<(u32, S)> = vec![(12, self.expr_opt(Ty::Bool, d, false))];
+        if self.cfg.funcs {
+            alts.push((12, self.templates()));
+        }
         for t in ALL_TYS {
             if t != Ty::Bool {
                 alts.push((1, self.expr_opt(t, d, false)));
